@@ -99,6 +99,14 @@ func (m *vpC35Form) maxFile() int {
 // stdlibBody renders the model with mime/multipart.Writer (never fasthttp code).
 func (m *vpC35Form) stdlibBody() []byte {
 	var buf bytes.Buffer
+	total := 1024
+	for _, f := range m.fields {
+		total += len(f.value) + 256
+	}
+	for _, f := range m.files {
+		total += f.size + 512
+	}
+	buf.Grow(total)
 	mw := multipart.NewWriter(&buf)
 	if err := mw.SetBoundary(m.boundary); err != nil {
 		panic("vpC35: bad generated boundary: " + err.Error())
@@ -275,13 +283,30 @@ func vpC35Compare(m *vpC35Form, f *multipart.Form) string {
 			if err != nil {
 				return fmt.Sprintf("file %q[%d]: Open: %v", k, i, err)
 			}
-			got, err := io.ReadAll(fh)
-			fh.Close()
-			if err != nil {
-				return fmt.Sprintf("file %q[%d]: read: %v", k, i, err)
+			// block-wise comparison (files may be > 16 MiB)
+			want := wf.content()
+			blk := make([]byte, 64<<10)
+			off := 0
+			for {
+				n, err := fh.Read(blk)
+				if n > 0 {
+					if off+n > len(want) || !bytes.Equal(blk[:n], want[off:off+n]) {
+						fh.Close()
+						return fmt.Sprintf("file %q[%d]: content differs from the %d bytes written (first difference at %d)", k, i, wf.size, off+vpC35FirstDiff(blk[:n], want[min(off, len(want)):]))
+					}
+					off += n
+				}
+				if err == io.EOF {
+					break
+				}
+				if err != nil {
+					fh.Close()
+					return fmt.Sprintf("file %q[%d]: read: %v", k, i, err)
+				}
 			}
-			if !bytes.Equal(got, wf.content()) {
-				return fmt.Sprintf("file %q[%d]: %d content bytes differ from the %d written (first difference at %d)", k, i, len(got), wf.size, vpC35FirstDiff(got, wf.content()))
+			fh.Close()
+			if off != len(want) {
+				return fmt.Sprintf("file %q[%d]: only %d of %d content bytes", k, i, off, len(want))
 			}
 		}
 	}
@@ -889,21 +914,12 @@ func TestVP_C35_BigPreParse(t *testing.T) {
 		{"buffered/noclose", false, "mp-noclose"},
 		{"stream/truncated", true, "mp-truncated"},
 	}
+	// one >16 MiB body, rendered once by mime/multipart and shared by all variants
+	big := &vpC35Form{boundary: "vpBigBoundary0123456789",
+		fields: []vpC35Field{{"a", "1"}, {"a", "2"}},
+		files:  []vpC35File{{field: "small", filename: "s.txt", size: 10, seed: 1, ctype: "text/plain"}, {field: "big", filename: "big.bin", size: 16<<20 + 4097, seed: 3}, {field: "big", filename: "second.bin", size: 9000, seed: 5}}}
+	body := big.stdlibBody()
 	for _, v := range variants {
-		big := &vpC35Form{boundary: "vpBigBoundary0123456789",
-			fields: []vpC35Field{{"a", "1"}, {"a", "2"}},
-			files:  []vpC35File{{field: "small", filename: "s.txt", size: 10, seed: 1, ctype: "text/plain"}, {field: "big", filename: "big.bin", size: 16<<20 + 4097, seed: 3}, {field: "big", filename: "second.bin", size: 9000, seed: 5}}}
-		b0 := big.stdlibBody()
-		f1, err := multipart.NewReader(bytes.NewReader(b0), big.boundary).ReadForm(64 << 20)
-		if err != nil {
-			t.Fatalf("harness bug: %v", err)
-		}
-		var buf bytes.Buffer
-		if err := WriteMultipartForm(&buf, f1, big.boundary); err != nil {
-			t.Fatalf("C35 violated: WriteMultipartForm failed on a >16 MiB form: %v", err)
-		}
-		f1.RemoveAll() //nolint:errcheck
-		body := buf.Bytes()
 		sent := body
 		cl := len(body)
 		switch v.kind {
@@ -915,6 +931,7 @@ func TestVP_C35_BigPreParse(t *testing.T) {
 			sent = body[:len(body)-5000]
 		}
 		var w bytes.Buffer
+		w.Grow(len(sent) + 512)
 		fmt.Fprintf(&w, "POST /0 HTTP/1.1\r\nHost: vp\r\nContent-Type: multipart/form-data; boundary=%s\r\nContent-Length: %d\r\n\r\n", big.boundary, cl)
 		w.Write(sent)
 		h := &vpC35History{stream: v.stream, reqs: []*vpC35Req{
